@@ -83,14 +83,17 @@ ASSUMES = [
     "range the documented product multiplier*exp_base**k is read the IEEE way (+inf for multiplier > 0, 0 for multiplier = 0) — on the unchanged tree "
     "nothing returns there (KF-C07-1), so this only matters once an overflow guard exists",
     "random.Random(seed).uniform(a,b) = uninterpreted U(seed, draw#, a, b) lying between a and b; a read of the module-level generator is a "
-    "fresh value constrained only to the range (environment); native replays of bound queries also try the extreme draws a, b, (a+b)/2",
+    "fresh value constrained only to the range (environment); native replays of bound queries also try the extreme draws a, b, (a+b)/2, "
+    "native replays of determinism models also run with the RNG values of the model",
     "python's `0 + x` / `sum()` dispatch (int.__add__ -> NotImplemented -> x.__radd__(0)) is mirrored by hand in the Engine-T spelling "
     "queries (3 lines, _py_add); Engine S executes the real dispatch",
 ]
 OUTSIDE = [
     "parameters beyond |p| <= 1e300 or non-zero below 1e-300 (not doubles) (there start+increment*attempts and sums of parts saturate to inf on their own: e.g. "
     "wait_incrementing(increment=1e308)(2) == inf); the sum / determinism identities are decided for |p| <= 1e6",
-    "attempts > K with a symbolic exp_base; attempts > AMAX; exp_base other than the default / 10 for attempts > K; negative attempts",
+    "attempts > K with a symbolic exp_base; attempts > AMAX; exp_base other than the default / 10 for attempts > K; for the exponential "
+    "strategies attempts beyond the 275-range that contains the first overflowing attempt count (2.0: up to 1099, 10.0: up to 549 — beyond it "
+    "every input is in KF-C07-1's class on this tree); negative attempts",
     "timedelta-typed parameters (_to_seconds conversion), int-typed exp_base/initial of wait_exponential_jitter (not converted to float by its __init__)",
     "rounding of float arithmetic (uniform() may return its upper end point); behaviour without a seed",
     "chains / sums of more than 3 strategies; user-defined conditions that raise",
@@ -728,7 +731,8 @@ def _chunks():
 
 def _range_cases():
     """attempts symbolic: strategies without ** over the whole range 0..AMAX in one query; exponential strategies with a concrete
-    exp_base (constructor default; 10 for two of them), one query per attempt range of CHUNK values (exact case table of **), up to
+    exp_base (constructor default; 10 for wait_exponential, thorough: also for wait_exponential_jitter; wait_full_jitter and one wait_combine
+    shape in the thorough tier only), one query per attempt range of CHUNK values (exact case table of **), up to
     and including the range that contains the first attempt count whose power leaves the double range (2.0: 1024, 10.0: 309)."""
     from fractions import Fraction
 
@@ -741,14 +745,14 @@ def _range_cases():
         out.append(Case(H.spec_label(s), s, ktag=f"k=0..{AMAX}", k=k, krange=(0, AMAX)))
     for lo, hi in _chunks():
         tag = f"k={lo}..{hi}"
-        for mk in (H.ExponentialSpec, H.ExpJitterSpec, H.RandomExpSpec, H.FullJitterSpec):
+        for mk in (H.ExponentialSpec, H.ExpJitterSpec, H.RandomExpSpec) + B((), (H.FullJitterSpec,)):
             s0 = mk()
-            for base in [_default_of(s0.name, "exp_base")] + ([10.0] if mk in (H.ExponentialSpec, H.ExpJitterSpec) else []):
+            for base in [_default_of(s0.name, "exp_base")] + ([10.0] if mk in (H.ExponentialSpec,) + B((), (H.ExpJitterSpec,)) else []):
                 if Fraction(base) ** lo > Fraction(H.DBL_MAX_F):
                     continue  # base ** k is out of range for EVERY k of this attempt range: nothing returns, nothing to bound (and all of it is KF-C07-1's class)
                 s = mk()
                 out.append(Case(f"{s.name}[exp_base={base}]", s, fixed={"exp_base": base}, ktag=tag, k=k, krange=(lo, hi)))
-        if Fraction(2) ** lo > Fraction(H.DBL_MAX_F):
+        if Fraction(2) ** lo > Fraction(H.DBL_MAX_F) or not vlib.boot.THOROUGH:
             continue
         s = H.CombineSpec([H.IncrementingSpec("p0_"), H.ExponentialSpec("p1_")])
         out.append(Case(H.spec_label(s) + "[exp_base=2.0]", s, fixed={"p1_exp_base": 2.0}, ktag=tag, k=k, krange=(lo, hi)))
